@@ -422,6 +422,18 @@ func genAr1415(c *Ctx) {
 	}
 	c.Case(false, fmt.Sprintf("ar sum i %d | -", hourNs1415))
 	c.Case(false, fmt.Sprintf("ar avg f %d | -", hourNs1415))
+	// large integers (above 2^53): integer sum / min / max / count stay exact (no detour through float64)
+	for _, base := range []int64{1 << 53, (1 << 60) + 1, -(1 << 55) - 3} {
+		for _, red := range []string{"sum", "min", "max"} {
+			c.Case(true, fmt.Sprintf("ar %s i %d | 0:%d,600000000000:%d,1200000000000:%d,%d:%d,%d:%d", red, hourNs1415,
+				base+1, base+2, base+3, hourNs1415, base+5, hourNs1415+7e9, base+4))
+			c.Case(true, fmt.Sprintf("mm %s i | %d,%d,%d", map[string]string{"sum": "max", "min": "min", "max": "max"}[red], base+1, base+3, base+2))
+		}
+		for _, red := range []string{"sum", "min", "max", "count"} {
+			c.Case(true, fmt.Sprintf("rf %s all | 0i+,1i+,2i+ | %d,%d,%d;%d,%d,%d", red, base+1, base+2, base+3, base+7, base+6, base+5))
+			c.Case(true, fmt.Sprintf("rd %s %d | i+ 0:%d,3600000000000:%d | i+ 0:%d,3600000000000:%d", red, hourNs1415, base+1, base+3, base+2, base+5))
+		}
+	}
 	// seeded random: longer series, other period lengths, instants before 1970, records carried in other locations
 	durs := []int64{hourNs1415, 60 * 1e9, 900 * 1e9, 86400 * 1e9, 7 * 1e9, 1000000007}
 	n := c.Pick(3000, 200000)
